@@ -11,7 +11,9 @@ EXPL = ("R06.1 everything others may wait on (mailbox receiver, context with tim
         "including unwind and cancel edges). R06.2 Context::drop aborts every timer handle; all timers are registered "
         "through one function that makes the future abortable, records the handle on every path and spawns the abortable "
         "future. R06.3 the child table lives in the Context only. R06.4 each spawner's join turns task failure and actor "
-        "error into None without a panicking extractor. R06.6 the crate's only statics are the id counter and the registry.")
+        "error into None without a panicking extractor. R06.6 the crate's only statics are the id counter and the registry. "
+        "R06.7 the two fan-outs over several actors (a parent's broadcast to its children, the broker's publication) "
+        "deliver member by member and are not ended by a failing member, so siblings of a dead actor observe nothing.")
 
 PANICKY = ("::unwrap", "::expect", "::unwrap_unchecked", "panicking::panic", "panicking::panic_fmt", "::unwrap_err", "::expect_err")
 
@@ -79,6 +81,37 @@ def check_cfg(ctx, fx, cfg):
                 if c.endswith(PANICKY) and not t.get("exp"):
                     bad.append((c, t["l"]))
         ctx.require(not bad, "R06.4", "join-no-panic:%s@%s" % (f.get("impl_self", "?").split("::")[-1], cfg), "the join path uses a panicking extractor: a failed actor would panic the joiner instead of yielding None: %s" % bad, fn=f["def"], site=f["loc"], detail={"bodies": len(fam)})
+    # R06.7 fan-outs over several actors are not cut short by one dead member (its siblings / fellow subscribers
+    # must observe nothing): the parent's broadcast to its children and the broker's publication fan-out
+    if cfg != "bare":
+        from props import c16, c09
+        f = fx.fn("context::Context::<A>::send_to_children")
+        if ctx.require(f is not None, "R06.7", "children-broadcast@" + cfg, "Context::send_to_children not found"):
+            A = nfa.Alphabet(calls=[("force_send", nfa.callee_is("addr::sender::Sender::<M>::force_send")), ("iternext", nfa.callee_ends("Iterator::next"))], adts={"core::result::Result": "Res", "core::option::Option": "Option"})
+            b = ctx.body(fx, f)
+            n = nfa.build(b, A)
+            viols, ps = nfa.check(n, c16.Broadcast())
+            ctx.count_nfa(n.stats(), ps)
+            sends = len(nfa.edges_labelled(n, "call:force_send"))
+            for v in viols:
+                ctx.viol("R06.7", "children-broadcast@" + cfg, v["msg"].replace("R16.3", "R06.7"), fn=f["def"], site=f["loc"], trace=v["trace"])
+            if not viols:
+                ctx.require(sends == 1, "R06.7", "children-broadcast@" + cfg, "the broadcast must deliver to each child in its own step so that a failing child does not end it (found %d delivery sites in the loop)" % sends, fn=f["def"], site=f["loc"])
+        pf = None
+        for g in fx.impl_fns("handler::Handler", "broker::Broker<"):
+            if "broker::Publish<" in (g.get("impl_trait") or ""):
+                pf = g
+        if ctx.require(pf is not None, "R06.7", "publish-fan-out@" + cfg, "the broker's publish handler was not found"):
+            co = [c for c in fx.children_of(pf["def"]) if c["kind"] == "coroutine"][0]
+            b = ctx.body(fx, co)
+            A = nfa.Alphabet(calls=[("send", nfa.callee_is("addr::sender::Sender::<M>::send", "addr::sender::Sender::<M>::force_send")), ("iternext", nfa.callee_ends("Iterator::next"))], adts={"core::option::Option": "Option", "core::result::Result": "Res"})
+            n = nfa.build(b, A)
+            viols, ps = nfa.check(n, c09.FanOut())
+            ctx.count_nfa(n.stats(), ps)
+            for v in viols:
+                ctx.viol("R06.7", "publish-fan-out@" + cfg, v["msg"].replace("R09.3", "R06.7"), fn=co["def"], site=co["loc"], trace=v["trace"])
+            if not viols:
+                ctx.ok("R06.7", "publish-fan-out@" + cfg, co["loc"], n.stats())
     # R06.6 statics
     st = sorted(s["def"] for s in fx.d["statics"])
     ctx.require(st == ["actor::service::REGISTRY", "context::id::CONTEXT_ID"], "R06.6", "statics@" + cfg, "cross-actor shared state changed: statics are %s" % st, site="crate", detail=st)
